@@ -23,9 +23,19 @@ NEEDLES = [
     b"pure virtual method called",   # 10
     b"SUMMARY: UndefinedBehaviorSanitizer",  # 11
     b" expanded to: ",               # 12 error inside a macro expansion
+    b"Unclosed string",              # 13 the diagnostics of the hand-written scanners ...
+    b"unterminated",                 # 14
+    b"Not enough arguments",         # 15
+    b"Too many arguments",           # 16
+    b"missing terminating",          # 17
+    b"Ignoring invalid expression",  # 18
+    b"digit separator",              # 19
+    b"literal suffix",               # 20
+    b"missing ')'",                  # 21
 ]
 (N_ASAN, N_UBSAN, N_TERMINATE, N_ERROR, N_ASSERT, N_EPARSE, N_IFAIL, N_EPRE, N_LSAN, N_WARN, N_PUREV,
- N_UBSUM, N_EXPANDED) = [1 << i for i in range(len(NEEDLES))]
+ N_UBSUM, N_EXPANDED) = [1 << i for i in range(13)]
+N_SCANNER = sum(1 << i for i in range(12, len(NEEDLES)))
 INTERESTING = N_ASAN | N_UBSAN | N_TERMINATE | N_ASSERT | N_LSAN | N_PUREV | N_UBSUM
 
 OUTPUTS = ["o.cxx", "o.in", "o.txt"]
